@@ -313,3 +313,373 @@ Proof.
     assert (R10 := reach_step _ _ _ R9 (h_uclose s9 1 0 eq_refl ltac:(discriminate))) end. clear R9.
   eexists. split; [exact R10|]. repeat split.
 Qed.
+
+(* ================================================================================================
+   The sequential view (sc_run) and the monitor: the monitor accepts every history of the model,
+   malformed and out-of-scope histories included - it cannot raise an alarm on behaviour the model
+   has. *)
+From Coq Require Import String.
+(* ---- list facts -------------------------------------------------------------------------------- *)
+Lemma set_nth_length {A} (l : list A) n v : List.length (set_nth l n v) = List.length l.
+Proof. revert n; induction l as [|a l IH]; intros [|n]; simpl; auto. Qed.
+
+Lemma nth_set_nth_eq {A} (l : list A) n v x : nth_error l n = Some x -> nth_error (set_nth l n v) n = Some v.
+Proof. revert n; induction l as [|a l IH]; intros [|n]; simpl; try discriminate; auto. Qed.
+
+Lemma nth_set_nth_neq {A} (l : list A) n k v : n <> k -> nth_error (set_nth l n v) k = nth_error l k.
+Proof.
+  revert n k; induction l as [|a l IH]; intros [|n] [|k] H; simpl; auto; try congruence.
+Qed.
+
+Lemma nth_set_nth_none {A} (l : list A) n v : nth_error l n = None -> set_nth l n v = l.
+Proof. revert n; induction l as [|a l IH]; intros [|n]; simpl; try discriminate; auto. intros H. f_equal. auto. Qed.
+
+Lemma set_nth_same {A} (l : list A) n v : nth_error l n = Some v -> set_nth l n v = l.
+Proof.
+  revert n; induction l as [|a l IH]; intros [|n]; simpl; try discriminate; auto.
+  - intros H. inversion H. reflexivity.
+  - intros H. f_equal. auto.
+Qed.
+
+Lemma all_closed_spec l : all_closed l = true <-> forall h b, nth_error l h = Some b -> b = true.
+Proof.
+  unfold all_closed. rewrite forallb_forall. split.
+  - intros H h b Hn. apply nth_error_In in Hn. apply H in Hn. exact Hn.
+  - intros H b Hin. apply In_nth_error in Hin. destruct Hin as [n Hn]. eapply H; eauto.
+Qed.
+
+Lemma all_closed_false_open l h : nth_error l h = Some false -> all_closed l = false.
+Proof.
+  intros H. destruct (all_closed l) eqn:E; [|reflexivity].
+  rewrite all_closed_spec in E. apply E in H. discriminate.
+Qed.
+
+Lemma all_closed_app_false l : all_closed (l ++ [false]) = false.
+Proof. unfold all_closed. rewrite forallb_app. simpl. apply andb_false_r. Qed.
+
+Lemma nth_error_app_last {A} (l : list A) x h :
+  nth_error (l ++ [x]) h = if Nat.ltb h (List.length l) then nth_error l h else if Nat.eqb h (List.length l) then Some x else None.
+Proof.
+  destruct (Nat.ltb_spec h (List.length l)).
+  - apply nth_error_app1; auto.
+  - rewrite nth_error_app2 by lia. destruct (Nat.eqb_spec h (List.length l)).
+    + subst. rewrite Nat.sub_diag. reflexivity.
+    + destruct (h - List.length l)%nat eqn:E; [lia|]. simpl. destruct n0; reflexivity.
+Qed.
+
+Lemma nth_error_lt {A} (l : list A) h x : nth_error l h = Some x -> (h < List.length l)%nat.
+Proof. intros H. apply nth_error_Some. congruence. Qed.
+
+Lemma first_blocked_spec l n k : first_blocked l n = Some k ->
+  (n <= k)%nat /\ nth_error l (k - n) = Some RBlocked.
+Proof.
+  revert n. induction l as [|a l IH]; simpl; intros n H; [discriminate|].
+  destruct a; try (apply IH in H; destruct H as [Hle Hn]; split; [lia|];
+                   replace (k - n)%nat with (S (k - S n)) by lia; exact Hn).
+  inversion H; subst. split; [lia|]. rewrite Nat.sub_diag. reflexivity.
+Qed.
+
+Lemma all_ok_app a b : all_ok (a ++ b) = all_ok a && all_ok b.
+Proof. unfold all_ok. apply forallb_app. Qed.
+
+(* ---- the relation between the sequential model and the monitor's bookkeeping --------------------- *)
+Definition slot (fs : fstate) (h : nat) := nth_error (fread fs) h.
+
+Record Rel (fs : fstate) (m : mstate) : Prop := {
+  r_cl : mcl m = fclosed fs;
+  r_len : List.length (fread fs) = List.length (fclosed fs);
+  r_lenl : List.length (mlate m) = List.length (fclosed fs);
+  r_closes : mscope m = true -> closes_ok (fclosed fs) (Z.of_nat (fcloses fs)) = true;
+  r_open : mscope m = true -> forall h, nth_error (fclosed fs) h = Some false ->
+           slot fs h = Some RNone \/ slot fs h = Some RBlocked \/ slot fs h = Some (RGot ROk);
+  r_closed : forall h, nth_error (fclosed fs) h = Some true -> slot fs h <> Some RBlocked;
+  r_late : forall h, nth_error (fclosed fs) h = Some true -> nth_error (mlate m) h = Some true ->
+           slot fs h = Some RNone \/ slot fs h = Some (RGot RClosedPipe);
+  r_late_open : forall h, nth_error (fclosed fs) h = Some false -> nth_error (mlate m) h = Some false
+}.
+
+Lemma rel_init : Rel finit minit.
+Proof. constructor; simpl; auto; intros; destruct h; discriminate. Qed.
+
+Lemma closes_ok_zero cl c : closes_ok cl (Z.of_nat c) = true -> (exists h, nth_error cl h = Some false) -> c = O.
+Proof.
+  unfold closes_ok. intros H [h Hh]. destruct cl; [destruct h; discriminate|].
+  rewrite (all_closed_false_open _ _ Hh) in H. apply Z.eqb_eq in H. lia.
+Qed.
+
+(* closing one handle *)
+Lemma rel_close fs m h : Rel fs m ->
+  Rel (f_close fs h) {| mcl := mark_one (mcl m) h; mlate := mlate m; mscope := mscope m |}.
+Proof.
+  intros HR. destruct HR as [Hcl Hlen Hlenl Hcloses Hopen Hclosed Hlate Hlo].
+  unfold f_close, mark_one. rewrite Hcl.
+  destruct (nth_error (fclosed fs) h) as [[|]|] eqn:E.
+  - (* already closed *)
+    rewrite (set_nth_same _ _ _ E). constructor; simpl; auto.
+  - (* open: close it *)
+    assert (Hslot : exists sl, nth_error (fread fs) h = Some sl).
+    { destruct (nth_error (fread fs) h) eqn:E2; [eauto|]. apply nth_error_None in E2.
+      apply nth_error_lt in E. lia. }
+    destruct Hslot as [sl Hsl].
+    set (rd := match nth_error (fread fs) h with
+               | Some RBlocked => set_nth (fread fs) h (RGot RClosedPipe)
+               | Some (RGot ROk) => set_nth (fread fs) h REither
+               | _ => fread fs end).
+    assert (Hrdlen : List.length rd = List.length (fread fs)).
+    { unfold rd. rewrite Hsl. destruct sl as [| |[| |]|]; rewrite ?set_nth_length; reflexivity. }
+    assert (Hrd_other : forall k, k <> h -> nth_error rd k = nth_error (fread fs) k).
+    { intros k Hk. unfold rd. rewrite Hsl. destruct sl as [| |[| |]|]; rewrite ?nth_set_nth_neq by congruence; reflexivity. }
+    assert (Hrd_h : nth_error rd h <> Some RBlocked /\
+                    (mscope m = true -> nth_error rd h = Some RNone \/ nth_error rd h = Some (RGot RClosedPipe) \/ nth_error rd h = Some REither)).
+    { unfold rd. rewrite Hsl. split.
+      - destruct sl as [| |[| |]|]; rewrite ?(nth_set_nth_eq _ _ _ _ Hsl), ?Hsl; congruence.
+      - intros Hs. destruct (Hopen Hs h E) as [H|[H|H]]; unfold slot in H; rewrite Hsl in H; inversion H; subst;
+          rewrite ?(nth_set_nth_eq _ _ _ _ Hsl), ?Hsl; auto. }
+    constructor; simpl; fold rd.
+    + reflexivity.
+    + rewrite Hrdlen, set_nth_length. exact Hlen.
+    + rewrite set_nth_length. exact Hlenl.
+    + intros Hs. specialize (Hcloses Hs).
+      assert (fcloses fs = O) by (eapply closes_ok_zero; eauto). rewrite H.
+      unfold closes_ok. destruct (set_nth (fclosed fs) h true) eqn:E3.
+      * apply (f_equal (@List.length bool)) in E3. rewrite set_nth_length in E3. apply nth_error_lt in E. simpl in E3. lia.
+      * rewrite <- E3. destruct (all_closed (set_nth (fclosed fs) h true)); reflexivity.
+    + intros Hs k Hk. unfold slot; simpl. fold rd.
+      destruct (Nat.eq_dec k h) as [->|Hne].
+      * rewrite (nth_set_nth_eq _ _ _ _ E) in Hk. discriminate.
+      * rewrite nth_set_nth_neq in Hk by congruence. rewrite Hrd_other by assumption. apply (Hopen Hs k Hk).
+    + intros k Hk. unfold slot; simpl. fold rd.
+      destruct (Nat.eq_dec k h) as [->|Hne]; [apply Hrd_h|].
+      rewrite nth_set_nth_neq in Hk by congruence. rewrite Hrd_other by assumption. apply (Hclosed k Hk).
+    + intros k Hk Hl. unfold slot; simpl. fold rd.
+      destruct (Nat.eq_dec k h) as [->|Hne].
+      * (* the read in progress on h was started while h was open: mlate h = false, unless no read *)
+        rewrite (Hlo h E) in Hl. discriminate.
+      * rewrite nth_set_nth_neq in Hk by congruence. rewrite Hrd_other by assumption. apply (Hlate k Hk Hl).
+    + intros k Hk. destruct (Nat.eq_dec k h) as [->|Hne].
+      * rewrite (nth_set_nth_eq _ _ _ _ E) in Hk. discriminate.
+      * rewrite nth_set_nth_neq in Hk by congruence. apply (Hlo k Hk).
+  - constructor; simpl; auto.
+Qed.
+
+Lemma rel_closes hs : forall fs m, Rel fs m ->
+  Rel (fold_left f_close hs fs) {| mcl := fold_left mark_one hs (mcl m); mlate := mlate m; mscope := mscope m |}.
+Proof.
+  induction hs as [|h hs IH]; intros fs m HR; simpl.
+  - destruct m; exact HR.
+  - apply (IH (f_close fs h) {| mcl := mark_one (mcl m) h; mlate := mlate m; mscope := mscope m |}).
+    apply rel_close. exact HR.
+Qed.
+
+Lemma closes_check_ok fs m : Rel fs m ->
+  all_ok (if mscope m then [("underlying_closed_exactly_when_last_handle_closed"%string, closes_ok (mcl m) (Z.of_nat (fcloses fs)))] else []) = true.
+Proof.
+  intros HR. destruct (mscope m) eqn:E; [|reflexivity]. unfold all_ok. simpl.
+  rewrite (r_cl _ _ HR), (r_closes _ _ HR E). reflexivity.
+Qed.
+
+Lemma existing_closed_among cl hs ws : all_closed cl = true -> existing_among cl hs ws = closed_among cl hs ws.
+Proof.
+  intros H. unfold existing_among, closed_among. f_equal. apply filter_ext. intros w.
+  destruct (nth_error cl w) as [b|] eqn:E; [|reflexivity].
+  rewrite all_closed_spec in H. rewrite (H _ _ E). reflexivity.
+Qed.
+
+Lemma closes_ok_app l c : closes_ok (l ++ [false]) c = (c =? 0).
+Proof.
+  unfold closes_ok. destruct (l ++ [false]) eqn:E; [destruct l; discriminate|].
+  rewrite <- E, all_closed_app_false. reflexivity.
+Qed.
+
+(* updating the read slot of one handle (and possibly its late flag) *)
+Lemma rel_update_slot fs m h v q ml sl c :
+  c = fclosed fs ->
+  Rel fs m -> nth_error (fread fs) h = Some sl ->
+  (mscope m = true -> nth_error (fclosed fs) h = Some false -> v = RNone \/ v = RBlocked \/ v = RGot ROk) ->
+  (nth_error (fclosed fs) h = Some true -> v <> RBlocked) ->
+  (nth_error (fclosed fs) h = Some true -> nth_error ml h = Some true -> v = RNone \/ v = RGot RClosedPipe) ->
+  (forall k, k <> h -> nth_error ml k = nth_error (mlate m) k) -> List.length ml = List.length (mlate m) ->
+  (nth_error (fclosed fs) h = Some false -> nth_error ml h = Some false) ->
+  Rel {| fclosed := fclosed fs; fcloses := fcloses fs; fread := set_nth (fread fs) h v; fqueued := q |}
+      {| mcl := c; mlate := ml; mscope := mscope m |}.
+Proof.
+  intros Hc [Hcl Hlen Hlenl Hcloses Hopen Hclosed Hlate Hlo] Hsl Hvo Hvc Hvl Hmlk Hmll Hmlo.
+  constructor; simpl.
+  - exact Hc.
+  - rewrite set_nth_length. exact Hlen.
+  - rewrite Hmll. exact Hlenl.
+  - exact Hcloses.
+  - intros Hs k Hk. unfold slot; simpl. destruct (Nat.eq_dec h k) as [<-|Hne].
+    + rewrite (nth_set_nth_eq _ _ _ _ Hsl). destruct (Hvo Hs Hk) as [->|[->| ->]]; auto.
+    + rewrite nth_set_nth_neq by assumption. apply (Hopen Hs k Hk).
+  - intros k Hk. unfold slot; simpl. destruct (Nat.eq_dec h k) as [<-|Hne].
+    + rewrite (nth_set_nth_eq _ _ _ _ Hsl). intros H. inversion H. apply (Hvc Hk). assumption.
+    + rewrite nth_set_nth_neq by assumption. apply (Hclosed k Hk).
+  - intros k Hk Hl. unfold slot; simpl. destruct (Nat.eq_dec h k) as [<-|Hne].
+    + rewrite (nth_set_nth_eq _ _ _ _ Hsl). destruct (Hvl Hk Hl) as [->| ->]; auto.
+    + rewrite Hmlk in Hl by congruence. rewrite nth_set_nth_neq by assumption. apply (Hlate k Hk Hl).
+  - intros k Hk. destruct (Nat.eq_dec h k) as [<-|Hne]; [apply (Hmlo Hk)|].
+    rewrite Hmlk by congruence. apply (Hlo k Hk).
+Qed.
+
+Lemma rel_same fs m : Rel fs m -> Rel fs {| mcl := mcl m; mlate := mlate m; mscope := mscope m |}.
+Proof. destruct m; auto. Qed.
+
+(* one operation: the monitor accepts the model's observation and the relation is kept *)
+Lemma step_ok fs m o : Rel fs m ->
+  let r := sc_apply fs o in
+  all_ok (sc_op_checks m (mark m o (snd r)) o (snd r)) = true /\ Rel (fst r) (mark m o (snd r)).
+Proof.
+  intros HR. destruct o; simpl.
+  - (* ONew *)
+    assert (HR' : Rel {| fclosed := fclosed fs ++ [false]; fcloses := fcloses fs; fread := fread fs ++ [RNone]; fqueued := fqueued fs |}
+                      {| mcl := mcl m ++ [false]; mlate := mlate m ++ [false];
+                         mscope := mscope m && match mcl m with [] => true | _ => negb (all_closed (mcl m)) end |}).
+    { destruct HR as [Hcl Hlen Hlenl Hcloses Hopen Hclosed Hlate Hlo].
+      constructor; simpl.
+      - rewrite Hcl. reflexivity.
+      - rewrite !app_length, Hlen. reflexivity.
+      - rewrite !app_length, Hlenl. reflexivity.
+      - intros Hs. apply andb_true_iff in Hs. destruct Hs as [Hs Hn]. specialize (Hcloses Hs).
+        rewrite Hcl in Hn. rewrite closes_ok_app. unfold closes_ok in Hcloses.
+        destruct (fclosed fs) as [|b l] eqn:E; [exact Hcloses|].
+        apply negb_true_iff in Hn. rewrite Hn in Hcloses. exact Hcloses.
+      - intros Hs h Hh. apply andb_true_iff in Hs. destruct Hs as [Hs _]. unfold slot; simpl.
+        rewrite nth_error_app_last in Hh. rewrite nth_error_app_last, Hlen.
+        destruct (Nat.ltb h (List.length (fclosed fs))); [apply (Hopen Hs h Hh)|].
+        destruct (Nat.eqb h (List.length (fclosed fs))); [auto|discriminate].
+      - intros h Hh. unfold slot; simpl. rewrite nth_error_app_last in Hh. rewrite nth_error_app_last, Hlen.
+        destruct (Nat.ltb h (List.length (fclosed fs))); [apply (Hclosed h Hh)|].
+        destruct (Nat.eqb h (List.length (fclosed fs))); discriminate.
+      - intros h Hh Hl. unfold slot; simpl. rewrite nth_error_app_last in Hh, Hl. rewrite nth_error_app_last, Hlen.
+        rewrite Hlenl in Hl.
+        destruct (Nat.ltb h (List.length (fclosed fs))); [apply (Hlate h Hh Hl)|].
+        destruct (Nat.eqb h (List.length (fclosed fs))); discriminate.
+      - intros h Hh. rewrite nth_error_app_last in Hh. rewrite nth_error_app_last, Hlenl.
+        destruct (Nat.ltb h (List.length (fclosed fs))); [apply (Hlo h Hh)|].
+        destruct (Nat.eqb h (List.length (fclosed fs))); [reflexivity|discriminate]. }
+    split; [|exact HR'].
+    apply (closes_check_ok _ _ HR').
+  - (* OClose *)
+    pose proof (rel_close fs m h HR) as HR'. split; [|exact HR'].
+    unfold all_ok at 1. simpl. apply (closes_check_ok _ _ HR').
+  - (* OPClose *)
+    pose proof (rel_closes hs fs m HR) as HR'. split; [|exact HR'].
+    unfold all_ok at 1. simpl. apply (closes_check_ok _ _ HR').
+  - (* OPCloseW *)
+    pose proof (rel_closes hs fs m HR) as HR'. split; [|exact HR'].
+    pose proof (closes_check_ok _ _ HR') as Hcc. simpl in Hcc.
+    assert (Hnf : mscope m = true ->
+                  Z.of_nat (if Nat.ltb 0 (fcloses fs) then existing_among (fclosed fs) hs ws else closed_among (fclosed fs) hs ws)
+                  = Z.of_nat (closed_among (mcl m) hs ws)).
+    { intros Hs. f_equal. rewrite (r_cl _ _ HR).
+      destruct (Nat.ltb_spec 0 (fcloses fs)) as [Hpos|Hz]; [|reflexivity].
+      apply existing_closed_among. pose proof (r_closes _ _ HR Hs) as Hc. unfold closes_ok in Hc.
+      destruct (fclosed fs) eqn:E; [apply Z.eqb_eq in Hc; lia|]. rewrite <- E in *.
+      destruct (all_closed (fclosed fs)); [reflexivity|apply Z.eqb_eq in Hc; lia]. }
+    destruct (mscope m) eqn:Hs; unfold all_ok in *; simpl in *.
+    + rewrite andb_true_r in Hcc. rewrite Hcc. simpl. rewrite (Hnf eq_refl), Z.eqb_refl. reflexivity.
+    + reflexivity.
+  - (* OWrite *)
+    rewrite (r_cl _ _ HR). destruct (nth_error (fclosed fs) h) as [[|]|] eqn:E; simpl.
+    + split; [reflexivity|destruct m; exact HR].
+    + split; [|destruct m; exact HR]. destruct (mscope m) eqn:Hs; [|reflexivity].
+      assert (fcloses fs = O) by (eapply closes_ok_zero; [apply (r_closes _ _ HR Hs)|eauto]).
+      rewrite H. reflexivity.
+    + split; [reflexivity|destruct m; exact HR].
+  - (* ORStart *)
+    pose proof HR as HR0. destruct HR as [Hcl Hlen Hlenl Hcloses Hopen Hclosed Hlate Hlo].
+    destruct (nth_error (fclosed fs) h) as [[|]|] eqn:E; simpl;
+      [ | | split; [reflexivity|exact HR0] ].
+    + (* closed handle: fails at once *)
+      destruct (nth_error (fread fs) h) as [[| | |]|] eqn:E2; simpl;
+        try (split; [reflexivity|exact HR0]).
+      split; [reflexivity|]. rewrite Hcl, E.
+      eapply (rel_update_slot fs m h (RGot RClosedPipe) (fqueued fs) (set_nth (mlate m) h true) RNone);
+        [ reflexivity | exact HR0 | exact E2 | intros; congruence | intros; discriminate | intros; auto
+        | intros k Hk; apply nth_set_nth_neq; congruence | apply set_nth_length | intros; congruence ].
+    + (* open handle *)
+      destruct (nth_error (fread fs) h) as [[| | |]|] eqn:E2; simpl;
+        try (split; [reflexivity|exact HR0]).
+      assert (Hml : exists b, nth_error (mlate m) h = Some b).
+      { destruct (nth_error (mlate m) h) eqn:E3; [eauto|]. apply nth_error_None in E3. apply nth_error_lt in E. lia. }
+      destruct Hml as [b0 Hb0].
+      assert (Hgen : forall v q, (mscope m = true -> v = RBlocked \/ v = RGot ROk) ->
+                Rel {| fclosed := fclosed fs; fcloses := fcloses fs; fread := set_nth (fread fs) h v; fqueued := q |}
+                    (mark m (ORStart h) [0])).
+      { intros v q Hv. simpl. rewrite Hcl, E.
+        eapply (rel_update_slot fs m h v q (set_nth (mlate m) h false) RNone);
+          [ reflexivity | exact HR0 | exact E2
+          | intros Hs _; destruct (Hv Hs) as [->| ->]; auto
+          | intros; congruence | intros; congruence
+          | intros k Hk; apply nth_set_nth_neq; congruence | apply set_nth_length
+          | intros _; apply (nth_set_nth_eq _ _ _ _ Hb0) ]. }
+      destruct (Nat.ltb_spec 0 (fcloses fs)) as [Hpos|Hz]; simpl.
+      * split; [reflexivity|]. apply Hgen. intros Hs. exfalso.
+        assert (fcloses fs = O) by (eapply closes_ok_zero; [apply (Hcloses Hs)|eauto]). lia.
+      * destruct (fqueued fs); simpl; (split; [reflexivity|]); apply Hgen; auto.
+  - (* ORPoll *)
+    pose proof HR as HR0. destruct HR as [Hcl Hlen Hlenl Hcloses Hopen Hclosed Hlate Hlo].
+    assert (Hreset : forall sl, nth_error (fread fs) h = Some sl ->
+              Rel {| fclosed := fclosed fs; fcloses := fcloses fs; fread := set_nth (fread fs) h RNone; fqueued := fqueued fs |} m).
+    { intros sl Hsl. destruct m as [c l sc]. 
+      eapply (rel_update_slot fs {| mcl := c; mlate := l; mscope := sc |} h RNone (fqueued fs) l sl);
+        [ exact Hcl | exact HR0 | exact Hsl | intros; auto | intros; discriminate | intros; auto
+        | intros; reflexivity | reflexivity | intros Ho; apply (Hlo h Ho) ]. }
+    destruct (nth_error (fread fs) h) as [[| |r|]|] eqn:E2; simpl.
+    + (* no read *) split; [|exact HR0]. rewrite Hcl.
+      destruct (nth_error (fclosed fs) h) as [[|]|]; simpl; [destruct (nth_error (mlate m) h) as [[|]|]| |]; simpl;
+        try destruct (mscope m); reflexivity.
+    + (* blocked *) split; [|exact HR0]. rewrite Hcl.
+      destruct (nth_error (fclosed fs) h) as [[|]|] eqn:E; simpl.
+      * exfalso. apply (Hclosed h E). exact E2.
+      * destruct (mscope m); reflexivity.
+      * reflexivity.
+    + (* a result *)
+      split; [|apply (Hreset (RGot r) eq_refl)]. rewrite Hcl.
+      destruct (nth_error (fclosed fs) h) as [[|]|] eqn:E; simpl.
+      * destruct (nth_error (mlate m) h) as [[|]|] eqn:El; simpl.
+        -- destruct (Hlate h E El) as [H|H]; unfold slot in H; rewrite E2 in H; inversion H. reflexivity.
+        -- destruct r; reflexivity.
+        -- destruct r; reflexivity.
+      * destruct (mscope m) eqn:Hs; [|reflexivity].
+        destruct (Hopen eq_refl h E) as [H|[H|H]]; unfold slot in H; rewrite E2 in H; inversion H. reflexivity.
+      * reflexivity.
+    + (* data handed over, then closed *)
+      split; [|apply (Hreset REither eq_refl)]. rewrite Hcl.
+      destruct (nth_error (fclosed fs) h) as [[|]|] eqn:E; simpl.
+      * destruct (nth_error (mlate m) h) as [[|]|] eqn:El; simpl; try reflexivity.
+        destruct (Hlate h E El) as [H|H]; unfold slot in H; rewrite E2 in H; inversion H.
+      * destruct (mscope m) eqn:Hs; [|reflexivity].
+        destruct (Hopen eq_refl h E) as [H|[H|H]]; unfold slot in H; rewrite E2 in H; inversion H.
+      * reflexivity.
+    + split; [|exact HR0]. rewrite Hcl.
+      destruct (nth_error (fclosed fs) h) as [[|]|]; simpl; [destruct (nth_error (mlate m) h) as [[|]|]| |]; simpl;
+        try destruct (mscope m); reflexivity.
+  - (* ODeliver *)
+    destruct (match count_blocked (fread fs) with S (S _) => true | _ => false end); simpl; [split; [reflexivity|exact HR]|].
+    destruct (match fclosed fs with [] => false | _ :: _ => all_closed (fclosed fs) end); simpl;
+      [split; [reflexivity|exact HR]|].
+    pose proof HR as HR0. destruct HR as [Hcl Hlen Hlenl Hcloses Hopen Hclosed Hlate Hlo].
+    destruct (first_blocked (fread fs) 0) as [k|] eqn:Efb; simpl; (split; [reflexivity|]).
+    + apply first_blocked_spec in Efb. destruct Efb as [_ Hk]. rewrite Nat.sub_0_r in Hk.
+      assert (Hko : nth_error (fclosed fs) k = Some false).
+      { destruct (nth_error (fclosed fs) k) as [[|]|] eqn:E; [exfalso; apply (Hclosed k E); exact Hk|reflexivity|].
+        apply nth_error_None in E. apply nth_error_lt in Hk. lia. }
+      destruct m as [c l sc].
+      eapply (rel_update_slot fs {| mcl := c; mlate := l; mscope := sc |} k (RGot ROk) (fqueued fs) l RBlocked);
+        [ exact Hcl | exact HR0 | exact Hk | intros; auto | intros; discriminate | intros; congruence
+        | intros; reflexivity | reflexivity | intros Ho; apply (Hlo k Ho) ].
+    + constructor; simpl; auto.
+Qed.
+
+(* the monitor accepts every history of the sequential model *)
+Lemma sc_monitor_from ops : forall fs m, Rel fs m ->
+  all_ok (C13_sc_checks_from m ops (sc_run fs ops)) = true.
+Proof.
+  induction ops as [|o ops IH]; intros fs m HR; simpl; [reflexivity|].
+  destruct (step_ok fs m o HR) as [Hc HR']. rewrite all_ok_app, Hc. simpl. apply IH. exact HR'.
+Qed.
+
+Lemma sc_monitor_sound ops : C13_sc_monitor ops (sc_run finit ops) = true.
+Proof. apply sc_monitor_from. apply rel_init. Qed.
